@@ -78,8 +78,6 @@ def check(spec, stats):
     if a in STORAGE:
         if init:
             stats.label("init_nonzero")
-        if act.init != gens.init_arg(s, leaf["init"] if leaf.get("init") is not None else 0) and leaf.get("init") is not None:
-            raise Violation("C12/init-property", f"{a}.init = {act.init!r}")
     top = sim.wrap(act)
     port = act.port
     state = [init]
